@@ -436,7 +436,8 @@ impl PartitionSampler {
     /// Creates a new `PartitionSampler` instance.
     ///
     /// Partitions the given validators into `num_bins` bins of equal stake.
-    /// Partitioning is done randomly by splitting a randomly permuted list of nodes.
+    /// Partitioning is done by splitting a pseudo-randomly permuted list of nodes.
+    /// The permutation is a function of the validator set only, so all nodes agree on it.
     pub fn new(validators: Vec<ValidatorInfo>, num_bins: usize) -> Self {
         if num_bins == 0 {
             return Self {
@@ -451,8 +452,16 @@ impl PartitionSampler {
 
         let total_stake: Stake = validators.iter().map(|v| v.stake).sum();
         let stake_per_bin = total_stake.div_ceil(num_bins as u64);
+        // all nodes have to arrive at the same partition (it decides e.g. Rotor relays),
+        // so the permutation is derived from the validator set only, not from local randomness
+        let seed = validators.iter().fold(num_bins as u64, |seed, v| {
+            seed.rotate_left(5)
+                .wrapping_mul(0x9E37_79B9_7F4A_7C15)
+                .wrapping_add(v.id.inner())
+                .wrapping_add(v.stake.inner().rotate_left(32))
+        });
         let mut validators_random = validators;
-        validators_random.shuffle(&mut rand::rng());
+        validators_random.shuffle(&mut StdRng::seed_from_u64(seed));
 
         // partition into bins
         let mut current_bin = 0;
